@@ -31,6 +31,15 @@ class Op:
     target: tuple = None
 
 
+def _phi_alternatives(t, guard=T.TRUE):
+    if tag(t) == 'phi':
+        out = []
+        for g, v in t[1]:
+            out.extend(_phi_alternatives(v, T.mk_and([guard, g])))
+        return out
+    return [(guard, t)]
+
+
 def flatten(t, guard=T.TRUE, loops=(), stop_at_lphi=False) -> list:
     out = []
     cur = t
@@ -52,7 +61,13 @@ def flatten(t, guard=T.TRUE, loops=(), stop_at_lphi=False) -> list:
                 row = ('mask', tgt[1][2]) if tag(tgt[1]) == 'mask' else ('rows', tgt[1][2], tgt[1][3])
             elif tag(tgt) == 'sub' and tgt[1] == ('it',):
                 col = ('dyn', tgt[2])
-            out.append(Op('set', cur[1], cur, col=col, row=row, value=val, guard=guard, loops=loops, target=tgt))
+            if tag(val) == 'phi':
+                # a value chosen by a helper with early returns == one guarded store per alternative
+                for g, alt in _phi_alternatives(val):
+                    out.append(Op('set', cur[1], cur, col=col, row=row, value=alt, guard=T.mk_and([guard, g]),
+                                  loops=loops, target=tgt))
+            else:
+                out.append(Op('set', cur[1], cur, col=col, row=row, value=val, guard=guard, loops=loops, target=tgt))
             cur = cur[1]
         elif tg == 'mcall':
             out.append(Op('call', cur[1], cur, name=cur[2], args=cur[3], kws=cur[4], guard=guard, loops=loops))
